@@ -27,10 +27,10 @@ vars == <<s, type, tl, ret>>
 
 MCCfg3x3 == [grid_size |-> 3, num_agents |-> 2, num_food |-> 1, fov |-> 1, max_agent_level |-> 2,
              force_coop |-> FALSE, time_limit |-> 3, grid_observation |-> FALSE, normalize_reward |-> TRUE,
-             penalty_num |-> 0, penalty_den |-> 1]
+             penalty_num |-> 0, penalty_den |-> 1, injected |-> FALSE]
 MCCfg4x4 == [grid_size |-> 4, num_agents |-> 2, num_food |-> 2, fov |-> 1, max_agent_level |-> 2,
              force_coop |-> FALSE, time_limit |-> 3, grid_observation |-> FALSE, normalize_reward |-> TRUE,
-             penalty_num |-> 0, penalty_den |-> 1]
+             penalty_num |-> 0, penalty_den |-> 1, injected |-> FALSE]
 
 AllCells0 == (0..(G - 1)) \X (0..(G - 1))
 Food3Sym == { << <<1, 1>> >>, << <<0, 1>> >>, << <<0, 0>> >> }      \* centre, edge, corner: the symmetry classes of 3 x 3
